@@ -414,6 +414,16 @@ def run_property(pid, tier="quick", seed=0, update_ledger=False, verbose=False):
         selftest = run_selftest(p.get("functions", []))
         if selftest and selftest.get("survived"):
             crashed.append(f"engine self-test: {selftest['survived']} mutant(s) survived: {selftest.get('lines')}")
+        # ... and the unit test of the one-point sum rule P (must prove a pinned index, must not fire on a non-unique guard)
+        import subprocess
+        try:
+            rp = subprocess.run(["python3-vt", os.path.join(ROOT, "tools", "test_bigsum.py")], capture_output=True, text=True, timeout=300, cwd=ROOT)
+            if rp.returncode != 0:
+                crashed.append("sum-prover unit test (tools/test_bigsum.py) failed: " + rp.stdout[-300:])
+            elif selftest is not None:
+                selftest["sum_rule_P_unit_test"] = "ok"
+        except (OSError, subprocess.TimeoutExpired) as e:
+            crashed.append(f"sum-prover unit test did not run: {e}")
 
     os.makedirs(os.path.join(ROOT, "replays"), exist_ok=True)
     for i, (fn, nm, o) in enumerate(violations):
